@@ -112,8 +112,9 @@ def run(ctx, prop):
     oracle_fail, disagree, samples = [], [], []
     hist = {"revisions": 0, "facts_compared": 0, "fragments_compared": 0}
     distinct = set()
-    for i in range(n):
-        case = gen.gen_case(ctx.rng, opts, cid=f"C15-{ctx.seed}-{i}")
+    for i in range(n + 4):
+        case = gen.gen_case(ctx.rng, opts, cid=f"C15-{ctx.seed}-{i}") if i < n else \
+            gen.big_iface_case(ctx.rng, cid=f"C15-big-{ctx.seed}-{i}", grouped=(i % 2 == 1))
         prev = None
         for rev in range(ctx.rng.randint(3, 5)):
             if rev > 0:
